@@ -181,7 +181,7 @@ deriving Repr, DecidableEq, Inhabited
 
 /-- one invocation: clear flags, load `Cwnd`/`Rate`/`Micros`, run the events, then settings and report -/
 def invoke (decls : List VarDecl) (evs : List Event) (env : Env) (s : SrcState) : SrcState × InvObs :=
-  let s := { s with ev := 0, cont := 0, rep := 0, cwnd := env.prims.sndCwnd, rate := env.prims.sndRate,
+  let s := { s with ev := 0, cont := 0, rep := 0, cwnd := env.prims.sndCwnd.toUInt32.toUInt64, rate := env.prims.sndRate,
                     micros := env.now - s.t0 }
   match evalEvents env s evs with
   | .fault s' rc => (s', .fault rc)
